@@ -249,7 +249,9 @@ theorem restVec_get (rest : List (V3 ℝ)) (c : Nat) :
   rw [foldl_add_get]
   simp only [getLoop_eq, List.size_toArray]
   rw [range_loop_eq_cycle rest (fun p q => (V3.cross p q).get c)]
-  simp [sumEdges, crossPhi, V3.get, V3.zero, Scalar.lit]
+  have hz : (V3.zero : V3 ℝ).get c = 0 := by
+    simp only [V3.get, V3.zero, Scalar.lit, Scalar.ofNat_real]; split_ifs <;> simp
+  rw [hz, zero_add]; rfl
 
 theorem size_erase (poly : Array (V3 ℝ)) {j : Nat} (hj : j < poly.size) :
     (poly.eraseIdxIfInBounds j).size + 1 = poly.size := by
@@ -263,6 +265,7 @@ structure LoopPost (normal : V3 ℝ) (poly : List (V3 ℝ)) (new : List (Tri ℝ
   exit : rest.length ≤ 2 ∨ restDegenerate normal rest
   count : new.length + rest.length ≤ poly.length
   two : 2 ≤ poly.length → 2 ≤ rest.length
+  le : new.length ≤ poly.length - 2
   sub : rest.Sublist poly
 
 theorem LoopPost.erase {normal : V3 ℝ} {poly : List (V3 ℝ)} {j : Nat} (hj : j < poly.length)
@@ -278,6 +281,10 @@ theorem LoopPost.erase {normal : V3 ℝ} {poly : List (V3 ℝ)} {j : Nat} (hj : 
     rw [List.length_eraseIdx_of_lt hj] at this
     rw [List.length_append]; omega
   two := fun _ => p.two (by rw [List.length_eraseIdx_of_lt hj]; omega)
+  le := by
+    have := p.le
+    rw [List.length_eraseIdx_of_lt hj] at this
+    rw [List.length_append]; omega
   sub := p.sub.trans (List.eraseIdx_sublist _ _)
 
 /-- **loop invariant** (induction on the fuel): whenever the loop returns `tris`, these are the
@@ -298,7 +305,7 @@ theorem loop_boundary (normal : V3 ℝ) (fuel : Nat) :
       refine ⟨[], poly.toList, ?_, ?_⟩
       · simpa using (Except.ok.inj h).symm
       · exact ⟨by simpa using EdgeChainEq.refl _, Or.inl (by simpa using h1), by simp,
-          fun h => h, List.Sublist.refl _⟩
+          fun h => h, by simp, List.Sublist.refl _⟩
     · rw [if_neg h1] at h
       have h3 : 3 ≤ poly.toList.length := by simp only [Array.length_toList]; omega
       by_cases h2 : i ≥ poly.size
@@ -308,7 +315,7 @@ theorem loop_boundary (normal : V3 ℝ) (fuel : Nat) :
         refine ⟨[], poly.toList, ?_, ?_⟩
         · simpa using (Except.ok.inj h).symm
         · refine ⟨by simpa using EdgeChainEq.refl _, Or.inr ?_, by simp, fun h => h,
-            List.Sublist.refl _⟩
+            by simp, List.Sublist.refl _⟩
           unfold restDegenerate restVec
           simpa using hdeg
       · rw [if_neg h2] at h
@@ -343,6 +350,95 @@ theorem loop_boundary (normal : V3 ℝ) (fuel : Nat) :
             exact LoopPost.erase (emit := [_]) hj h3 (by simp) (by simpa using hc) hp
           · exact ih _ _ _ _ h
           · exact ih _ _ _ _ h
+
+/-! #### the Newell normal is minus the cycle sum of `p × q` -/
+
+/-- the summand of `calculate_normal_3d` for the edge `(p1, p2)` -/
+def newellTerm (p1 p2 : V3 ℝ) : V3 ℝ :=
+  ⟨(p2 - p1).y * (p2 + p1).z, (p2 - p1).z * (p2 + p1).x, (p2 - p1).x * (p2 + p1).y⟩
+
+theorem newell_go_get (first : V3 ℝ) (l : List (V3 ℝ)) (acc : V3 ℝ) (c : Nat) :
+    (newell.go first l acc).get c
+      = acc.get c + ((l.zip (l.tail ++ [first])).map fun e => (newellTerm e.1 e.2).get c).sum := by
+  induction l generalizing acc with
+  | nil => simp [newell.go]
+  | cons p1 t ih =>
+    cases t with
+    | nil =>
+      simp only [newell.go, List.tail_cons, List.nil_append, List.zip_cons_cons, List.zip_nil_left,
+        List.map_cons, List.map_nil, List.sum_cons, List.sum_nil, add_zero]
+      unfold newellTerm V3.get; split_ifs <;> rfl
+    | cons p2 rest =>
+      simp only [newell.go]
+      rw [ih]
+      simp only [List.tail_cons, List.cons_append, List.zip_cons_cons, List.map_cons, List.sum_cons,
+        ← add_assoc]
+      congr 1
+      unfold newellTerm V3.get; split_ifs <;> rfl
+
+/-- the telescoping part of the Newell summand -/
+def newellPot (c : Nat) (p : V3 ℝ) : ℝ := if c = 0 then p.y * p.z else if c = 1 then p.z * p.x else p.x * p.y
+
+theorem newellTerm_get (p q : V3 ℝ) (c : Nat) :
+    (newellTerm p q).get c = -(crossPhi c (p, q)) + (newellPot c q - newellPot c p) := by
+  obtain ⟨px, py, pz⟩ := p
+  obtain ⟨qx, qy, qz⟩ := q
+  simp only [newellTerm, crossPhi, newellPot, V3.get, V3.cross, V3.sub_x, V3.sub_y, V3.sub_z,
+    V3.add_x, V3.add_y, V3.add_z]
+  split_ifs <;> ring
+
+theorem sum_zipWith_diff (g : V3 ℝ → ℝ) (l l' : List (V3 ℝ)) (h : l'.length = l.length) :
+    ((l.zip l').map fun e => g e.2 - g e.1).sum = (l'.map g).sum - (l.map g).sum := by
+  induction l generalizing l' with
+  | nil =>
+    have : l' = [] := List.length_eq_zero_iff.mp (by simpa using h)
+    subst this; simp
+  | cons a t ih =>
+    match l', h with
+    | b :: t', h =>
+      simp only [List.zip_cons_cons, List.map_cons, List.sum_cons]
+      rw [ih t' (by simpa using h)]; ring
+
+theorem cycle_telescope (g : V3 ℝ → ℝ) (l : List (V3 ℝ)) :
+    ((cycleEdges l).map fun e => g e.2 - g e.1).sum = 0 := by
+  rw [cycleEdges_eq, sum_zipWith_diff g l _ (List.length_rotate _ _),
+    ((List.rotate_perm l 1).map g).sum_eq, sub_self]
+
+/-- **`calculate_normal_3d` = −Σ p × q** over the polygon's edge cycle, component by component -/
+theorem newell_get (poly : List (V3 ℝ)) (c : Nat) :
+    (newell poly).get c = -sumEdges (crossPhi c) (cycleEdges poly) := by
+  have hz : (V3.zero : V3 ℝ).get c = 0 := by
+    simp only [V3.get, V3.zero, Scalar.lit, Scalar.ofNat_real]; split_ifs <;> simp
+  cases poly with
+  | nil => simp [newell, cycleEdges_nil, sumEdges, hz]
+  | cons first t =>
+    have hcyc : (first :: t).zip ((first :: t).tail ++ [first]) = cycleEdges (first :: t) := by
+      simp [cycleEdges_eq]
+    simp only [newell]
+    rw [newell_go_get, hz, zero_add, hcyc]
+    simp only [newellTerm_get]
+    have := cycle_telescope (newellPot c) (first :: t)
+    have hsplit : ∀ E : List Edge,
+        (E.map fun e => -(crossPhi c (e.1, e.2)) + (newellPot c e.2 - newellPot c e.1)).sum
+          = -(E.map (crossPhi c)).sum + (E.map fun e => newellPot c e.2 - newellPot c e.1).sum := by
+      intro E
+      induction E with
+      | nil => simp
+      | cons e E ih => simp only [List.map_cons, List.sum_cons, ih]; ring
+    rw [hsplit, this, add_zero]; rfl
+
+/-! #### evaluation helpers on literal arrays (for the non-vacuity examples) -/
+theorem getLoop4 (a b c d : V3 ℝ) : getLoop #[a, b, c, d] 0 = a ∧ getLoop #[a, b, c, d] 1 = b ∧
+    getLoop #[a, b, c, d] 2 = c := ⟨rfl, rfl, rfl⟩
+theorem getLoop3 (a b c : V3 ℝ) : getLoop #[a, b, c] 0 = a ∧ getLoop #[a, b, c] 1 = b ∧
+    getLoop #[a, b, c] 2 = c := ⟨rfl, rfl, rfl⟩
+theorem erase4 (a b c d : V3 ℝ) :
+    (#[a, b, c, d] : Array (V3 ℝ)).eraseIdxIfInBounds (1 % 4) = #[a, c, d] := by
+  simp [Array.eraseIdxIfInBounds]
+theorem erase3 (a b c : V3 ℝ) : (#[a, b, c] : Array (V3 ℝ)).eraseIdxIfInBounds (1 % 3) = #[a, c] := by
+  simp [Array.eraseIdxIfInBounds]
+theorem others4 (a b c d : V3 ℝ) : others #[a, b, c, d] 0 = [d] := by simp [others]
+theorem others3 (a b c : V3 ℝ) : others #[a, b, c] 0 = [] := by simp [others]
 
 end Polytri
 
